@@ -19,7 +19,11 @@ import vlib
 from engines import c11
 
 PROP = "C05"
-PROGRAM = '$nr = NR; $fnr = FNR; $fnum = FILENUM; $fname = FILENAME; $nf = NF; end { print "ENDNR=" . NR }'
+ASSIGNMENTS = '$nr = NR; $fnr = FNR; $fnum = FILENUM; $fname = FILENAME; $nf = NF'
+PROGRAM = ASSIGNMENTS + '; end { print "ENDNR=" . NR }'
+# spelling of Reader.tla's Sel names
+SEL_TEXT = {"fnr1": "FNR == 1", "fnr2": "FNR == 2", "fnrgt1": "FNR > 1", "file2": "FILENUM == 2", "filegt1": "FILENUM > 1",
+            "nreven": "NR % 2 == 0", "nrgt1": "NR > 1"}
 
 
 def render_file(f, fmt):
@@ -90,6 +94,29 @@ def run(tier, seed):
                 argv = [mlr] + FMT_FLAGS[fmt] + OUT_FLAGS + ["--records-per-batch", str(b), "put", PROGRAM] + names
                 cases.append({"argv": argv, "files": fmap, "timeout_ms": 10000})
                 meta.append({"t": "files", "files": files, "names": names, "implicit": fmt.endswith("implicit"), "fmt": fmt, "b": b})
+
+    # ---- A2. where the context variables are consulted: under a pattern, downstream of a filter, downstream of tac ----
+    ul, g = b3.gen_cases("ReaderGen", {"MaxLen": 2, "MaxFiles": 3, "Family": '"uses"'})
+    states += g.distinct
+    if not thorough:
+        ul = [x for k, x in enumerate(sorted(ul, key=lambda x: json.dumps(x, sort_keys=True))) if (k + seed) % 4 == 0]
+    for k, x in enumerate(ul):
+        files, use = x["files"], x["use"]
+        fmt = ["dkvp", "csv", "tsv"][k % 3]
+        b = [1, 2, 500][(k // 3) % 3]
+        names = ["f%d.%s" % (i + 1, fmt) for i in range(len(files))]
+        fmap = {n: render_file(f, fmt) for n, f in zip(names, files)}
+        cond = SEL_TEXT.get(use["sel"], "true")
+        if use["mode"] == "cond":
+            chain = ["put", "%s { %s } end { print \"ENDNR=\" . NR }" % (cond, ASSIGNMENTS)]
+        elif use["mode"] == "filter":
+            chain = ["filter", cond, "then", "put", PROGRAM]
+        else:
+            chain = ["tac", "then", "put", PROGRAM]
+        argv = [mlr] + FMT_FLAGS[fmt] + OUT_FLAGS + ["--records-per-batch", str(b)] + chain + names
+        cases.append({"argv": argv, "files": fmap, "timeout_ms": 10000})
+        meta.append({"t": "files", "files": files, "names": names, "implicit": False, "fmt": fmt, "b": b, "use": use,
+                     "source": "use-%s-%s" % (use["mode"], use["sel"])})
 
     # ---- C. sources: the same bytes from a file, stdin, --from, compressed files, in-process flags, prepipes ----
     src_files = [x["files"][0] for x in fl if len(x["files"]) == 1 and x["files"][0]["rows"]][:4]
@@ -180,13 +207,15 @@ def run(tier, seed):
         if m["t"] == "files":
             out, endnr = parse_tab_dkvp(rr["stdout"])
             obs.append({"t": "files", "files": m["files"], "names": m["names"], "implicit": m["implicit"], "out": out, "endnr": endnr,
+                        "use": m.get("use", {"mode": "every", "sel": "all"}),
                         "exit": rr["exit"], "cs": [], "s": [], "piped": []})
         else:
             files = rr.get("files") or {}
             if "then.out" not in files or "piped.out" not in files:
                 raise vlib.Inconclusive("chain run produced no output files: %s" % rr["stderr"][:300])
             obs.append({"t": "chain", "cs": m["cs"], "s": m["s"], "out": b3.parse_dkvp(files["then.out"]),
-                        "piped": b3.parse_dkvp(files["piped.out"]), "exit": rr["exit"], "files": [], "names": [], "implicit": False, "endnr": ""})
+                        "piped": b3.parse_dkvp(files["piped.out"]), "exit": rr["exit"], "files": [], "names": [], "implicit": False, "endnr": "",
+                        "use": {"mode": "every", "sel": "all"}})
         omap.append(i)
     bad, n = b3.validate("ReaderObs", obs, chunk=4000)
     states += n
